@@ -2343,7 +2343,10 @@ PSymbolEntry EnterIntSymbolWithFlags(
     pNeu->RefList               = NULL;
     pNeu->SymWert.Relocs        = NULL;
 
-    if ((MomLocHandle == -1) || (DestHandle != -2)) {
+    /* variables (SET, system variables like MOMCPU, PADDING, LISTON...) are
+       never local to a macro expansion, only constants are */
+
+    if ((MomLocHandle == -1) || (DestHandle != -2) || MayChange) {
         EnterSymbol(pNeu, MayChange, DestHandle);
         if (MakeDebug) {
             PrintSymTree(pNeu->Tree.Name);
@@ -2383,7 +2386,7 @@ void EnterExtSymbol(
     pNeu->SymWert.Relocs->Ref   = as_strdup(pNeu->Tree.Name);
     pNeu->SymWert.Relocs->Add   = True;
 
-    if ((MomLocHandle == -1) || (DestHandle != -2)) {
+    if ((MomLocHandle == -1) || (DestHandle != -2) || MayChange) {
         EnterSymbol(pNeu, MayChange, DestHandle);
         if (MakeDebug) {
             PrintSymTree(pNeu->Tree.Name);
@@ -2423,7 +2426,7 @@ PSymbolEntry EnterRelSymbol(
     pNeu->SymWert.Relocs->Ref   = as_strdup(RelName_SegStart);
     pNeu->SymWert.Relocs->Add   = True;
 
-    if ((MomLocHandle == -1) || (DestHandle != -2)) {
+    if ((MomLocHandle == -1) || (DestHandle != -2) || MayChange) {
         EnterSymbol(pNeu, MayChange, DestHandle);
         if (MakeDebug) {
             PrintSymTree(pNeu->Tree.Name);
@@ -2458,7 +2461,7 @@ void EnterFloatSymbol(tStrComp const* pName, Double Wert, Boolean MayChange) {
     pNeu->RefList               = NULL;
     pNeu->SymWert.Relocs        = NULL;
 
-    if ((MomLocHandle == -1) || (DestHandle != -2)) {
+    if ((MomLocHandle == -1) || (DestHandle != -2) || MayChange) {
         EnterSymbol(pNeu, MayChange, DestHandle);
         if (MakeDebug) {
             PrintSymTree(pNeu->Tree.Name);
@@ -2498,7 +2501,7 @@ void EnterNonZStringSymbolWithFlags(
     pNeu->RefList          = NULL;
     pNeu->SymWert.Relocs   = NULL;
 
-    if ((MomLocHandle == -1) || (DestHandle != -2)) {
+    if ((MomLocHandle == -1) || (DestHandle != -2) || MayChange) {
         EnterSymbol(pNeu, MayChange, DestHandle);
         if (MakeDebug) {
             PrintSymTree(pNeu->Tree.Name);
@@ -2551,7 +2554,7 @@ void EnterRegSymbol(
     pNeu->RefList               = NULL;
     pNeu->SymWert.Relocs        = NULL;
 
-    if ((MomLocHandle == -1) || (DestHandle != -2)) {
+    if ((MomLocHandle == -1) || (DestHandle != -2) || MayChange) {
         EnterSymbol(pNeu, MayChange, DestHandle);
         if (MakeDebug) {
             PrintSymTree(pNeu->Tree.Name);
